@@ -27,7 +27,8 @@ class C15(Spec):
     harness = "c15"
     driver = "drv_sort"
     rule = ("one case = one SliceBy call (keys given explicitly, values identified by original index, lengths may differ; "
-            "less = keys[i]<keys[j] on []int or []string keys, or an inconsistent hash-based less) or one Unique* call; "
+            "less = keys[i]<keys[j] on []int or []string keys (independent strings or substrings of one shared string), or an "
+            "inconsistent hash-based less), or several SliceBy calls re-slicing the same backing arrays (multi), or one Unique* call; "
             "compared with the model: final keys, final value permutation, number and hash of all Less(i,j)->r calls "
             "(full call log for min<=16), Unique result and backing array. distinct by script line; non-trivial = "
             "at least 2 elements in the common prefix / in the Unique input")
@@ -38,8 +39,9 @@ class C15(Spec):
                    "sortedness clause: the key order is a strict weak order"]
 
     def compare(self, impl, model):
-        # the part after " ; " is measured from the Go call stack (nesting depth, heapSort seen): not modelled
-        return impl.split(" ; ")[0] == model
+        # the part after " ; " is measured from the Go call stack (nesting depth, heapSort seen): not modelled;
+        # a `multi` line is a " | "-joined list of such observations
+        return " | ".join(p.split(" ; ")[0] for p in impl.split(" | ")) == model
 
     def oracle(self, script, impl):
         w = script.split()
@@ -61,11 +63,26 @@ class C15(Spec):
             if xs == sorted(xs) and any(r[i] >= r[i + 1] for i in range(len(r) - 1)):
                 return ("unique-not-strict", "sorted input but result not strictly increasing")
             return None
+        if w[0] == "multi":
+            # several SliceBy calls on the same backing arrays: every step is judged like a single call
+            steps = script.split(" | ")[1:]
+            obs = impl.split(" | ")
+            if len(obs) != len(steps):
+                return ("malformed", "multi: %d steps, %d observations: %s" % (len(steps), len(obs), impl[:100]))
+            for k, (st, ob) in enumerate(zip(steps, obs)):
+                sw = st.split()
+                o = self.oracle_slice(sw[0], parse_ints(sw[1]), int(sw[2]), ob)
+                if o is not None:
+                    return (o[0], "step %d of %d (same backing arrays reused): %s" % (k + 1, len(steps), o[1]))
+            return None
         if w[0] != "slice":
             return None
-        mode = w[1].split("=")[0]
-        keys = parse_ints(w[2])
-        nv = int(w[4])
+        return self.oracle_slice(w[1], parse_ints(w[2]), int(w[4]), impl)
+
+    CONSISTENT = ("int", "str", "intb", "strb", "spre", "ssuf", "swin", "smix")
+
+    def oracle_slice(self, mode, keys, nv, impl):
+        mode = mode.split("=")[0]
         n = min(len(keys), nv)
         if impl.startswith("toomany"):
             return ("too-many-less-calls", "SliceBy made more than 64*n*(lg n+2)+1000 less calls (cut off): " + impl)
@@ -89,7 +106,7 @@ class C15(Spec):
         for i in range(n):
             if k[i] != keys[v[i]]:
                 return ("pairing-broken", "slot %d holds key %d with value #%d whose original key was %d" % (i, k[i], v[i], keys[v[i]]))
-        if mode in ("int", "str"):
+        if mode in self.CONSISTENT:
             for i in range(n - 1):
                 if k[i] > k[i + 1]:
                     return ("not-sorted", "keys[%d]=%d > keys[%d]=%d within the first %d" % (i, k[i], i + 1, k[i + 1], n))
@@ -99,7 +116,7 @@ class C15(Spec):
                 if not (0 <= int(i) < n and 0 <= int(j) < n):
                     return ("index-out-of-range", "less called with (%s,%s), common prefix is %d" % (i, j, n))
         if n >= 2:
-            factor = 4 if mode in ("int", "str") else 8   # inconsistent less: only O(n log n) with a looser constant
+            factor = 4 if mode in self.CONSISTENT else 8   # inconsistent less: only O(n log n) with a looser constant
             bound = factor * n * (math.log2(n) + 2)
             if cnt > bound:
                 return ("too-many-less-calls", "%d less calls > %d*n*(lg n + 2) = %.0f for n=%d" % (cnt, factor, bound, n))
@@ -121,6 +138,8 @@ class C15(Spec):
             return w[2].count(",") >= 1
         if w[0] == "slice":
             return min(w[2].count(",") + 1 if w[2] != "-" else 0, int(w[4])) >= 2
+        if w[0] == "multi":
+            return True
         return False
 
 
